@@ -118,6 +118,9 @@ pub struct KnownFinding {
     /// The failing execution must carry a marker starting with this text.
     #[serde(default)]
     pub marker: Option<String>,
+    /// ... and that marker must contain this text.
+    #[serde(default)]
+    pub marker_contains: Option<String>,
     pub what: String,
 }
 
@@ -129,14 +132,14 @@ pub struct KnownFile {
     pub fixed: Vec<String>,
 }
 
-fn load_known() -> KnownFile {
+pub fn load_known() -> KnownFile {
     match std::fs::read_to_string(format!("{}/known_findings.json", VERIF_DIR)) {
         Ok(t) => serde_json::from_str(&t).unwrap_or_default(),
         Err(_) => KnownFile::default(),
     }
 }
 
-fn matches_known(k: &KnownFinding, rf: &ReplayFile) -> bool {
+pub fn matches_known(k: &KnownFinding, rf: &ReplayFile) -> bool {
     if !k.oracle.iter().any(|o| *o == rf.oracle) {
         return false;
     }
@@ -156,7 +159,8 @@ fn matches_known(k: &KnownFinding, rf: &ReplayFile) -> bool {
         }
     }
     if let Some(m) = &k.marker {
-        if !rf.markers.iter().any(|x| x.starts_with(m.as_str())) {
+        let sub = k.marker_contains.clone().unwrap_or_default();
+        if !rf.markers.iter().any(|x| x.starts_with(m.as_str()) && x.contains(sub.as_str())) {
             return false;
         }
     }
